@@ -104,6 +104,8 @@ def _parse_operator(op_str: str) -> Tuple[int, str]:
     match = re.match(r"([XYZI])([0-9]+)$", op_str, re.I)
 
     if not match:
+        if op_str in ("I", "i"):
+            return 0, "I"
         raise ValueError("Badly formatted string representation passed.")
 
     return int(match.group(2)), match.group(1).upper()
